@@ -162,6 +162,17 @@ pub fn one(cred_i: usize, cfg: &Cfg, exp: &TimeVal, nbf: &TimeVal, must_accept: 
             }
         }
     }
+    // in-window points: just before, in the same process, other credentials are verified whose iat / nbf / exp speak of
+    // other times (issued six or twenty-three hours from now, valid until the year 2100, expired long ago); what a
+    // verifier learns about time from one credential must not shorten or lengthen the window of another
+    if must_accept {
+        for (iat, exp) in [(now + 6 * 3600, now + 10 * Y), (now + 23 * 3600, now + 10 * Y), (now - 10 * Y, now - 9 * Y), (now, 4102444800)] {
+            let p = json!({"iss": gen::ISS, "iat": iat, "exp": exp, "_sd_alg": "sha-256", "z": 1});
+            let jwt = tokens::sign_payload(&p, Alg::HS256, 0);
+            let t = codec::Parts { jwt, disclosures: vec![], kb: None }.serialize(cfg.fmt);
+            let _ = drive::verify(&t, keys::issuer_dec(Alg::HS256, 0), None, None, cfg.fmt);
+        }
+    }
     let first = drive::verify(&pres, keys::issuer_dec(cfg.alg, 0), aud, nonce, cfg.fmt);
     // the same presentation a second time in this process, and once in the other serialization: a rejection
     // must not be forgotten (and an acceptance not withdrawn)
